@@ -27,6 +27,8 @@ EXPLANATION = (
     'a RegionMask or raises NotImplementedError/ValueError; (R7) _validate_mode raises exactly on '
     'invalid mode/subpixels. Not decided: the geometric fast paths of the circular kernel, values '
     'in {0,1}, kernel binary vs source.')
+EXPLANATION_ADDED = (' Also (R5): an operand whose own include flag is false is complemented, and an operand that is itself a compound is padded with the value it has outside its own box (the serial pad value is partially evaluated on the 12 operator x include cases of a nested compound).')
+EXPLANATION += EXPLANATION_ADDED
 TRUSTED = ['the .so kernels were built from the .pyx analysed', 'np.pad(a, ((b,t),(l,r))) pads axis 0 then axis 1',
            'Quantity.to(u.rad).value is the angle in radians']
 ASSUMPTIONS = ['real arithmetic', 'external calls are pure']
